@@ -174,7 +174,20 @@ func init() {
 			if fd == nil {
 				return "", fmt.Errorf("pipeline.%s not found", fn)
 			}
-			sb.WriteString("def pipeline" + strings.ToUpper(fn[:1]) + fn[1:] + "Steps : List String := " + LeanStrList(c19Steps(fd.Body)) + "\n\n")
+			st := c19Steps(fd.Body)
+			sb.WriteString("def pipeline" + strings.ToUpper(fn[:1]) + fn[1:] + "Steps : List String := " + LeanStrList(st) + "\n\n")
+			if fn == "executeStage" {
+				// a deferred recover in executeStage that completes the stage it started
+				rec := false
+				for i, s := range st {
+					if strings.HasPrefix(s, "defer:") && strings.HasSuffix(s, "recover()") && i+1 < len(st) &&
+						strings.HasPrefix(st[i+1], "defer:") && strings.Contains(st[i+1], "p.sm.completeStage(stageID,") {
+						rec = true
+					}
+				}
+				sb.WriteString("/-- `pipeline.executeStage` recovers a panic of the stage it started and completes that stage -/\n")
+				sb.WriteString(fmt.Sprintf("def stageRecoversPanic : Bool := %v\n\n", rec))
+			}
 		}
 		_, bf, err := ParseFile(repo, "query/stage/base_stage.go")
 		if err != nil {
